@@ -48,7 +48,7 @@ func (c05Checker) Meta() CheckerMeta {
 		Rule: "each run draws one program (shared grammar; every tag; call-backs inside bodies), compiles it once in a shared set, and lets 2..4 tasks issue 1..5 operations each " +
 			"(Execute/ExecuteBytes/ExecuteWriter/ExecuteWriterUnbuffered/ExecuteBlocks on the shared template; FromCache+execute; FromFile/FromString+execute on the shared set; lazy includes compile at run time) under one seeded interleaving, optionally sharing context maps and with faults in some tasks; " +
 			"non-trivial = at least one pre-emption inside an execution; distinct = distinct hash of (program, ops, (task,site) interleaving, fired faults)",
-		Real:        []string{"pongo2 package (execution entry points, FromCache/FromFile/FromString, every tag/filter the generator writes)", "pongo2.FSLoader / HttpFilesystemLoader", "sync.Mutex", "Go race detector (happens-before)"},
+		Real:        []string{"pongo2 package (execution entry points, FromCache/FromFile/FromString, every tag/filter the generator writes)", "pongo2.FSLoader / HttpFilesystemLoader / LocalFilesystemLoader (temp directory)", "sync.Mutex", "Go race detector (happens-before)"},
 		Stub:        []string{"goroutine scheduling choices (seeded cooperative scheduler, invisible to the race detector)", "caller's io.Writer", "context call-backs", "template files (in-memory disk)"},
 		Assumptions: []string{"BanTag/BanFilter, Register*/Replace*, SetAutoescape and changing Options/Debug while executing are documented as set-up operations and are not interleaved", "the race detector sees only executed paths", "the static half of the quantifier is not attempted"},
 		QuickRuns:   4000, QuickRace: 1200,
